@@ -252,6 +252,7 @@ def l1_run(ctx, algo, spec, answers=None):
         else:
             if R.snap_diff(before, R.snapshot(prob)) is not None:
                 prob = R.build(spec)
+        _l1_coverage(ctx, algo, spec, soln, h, separable)
         if h.seen:
             ctx.flag("L1:init-replace" if h.seen[0][2] else "L1:init-noreplace")
         if ctx.evaluations % 7919 == 1 and soln is not None:
@@ -292,10 +293,6 @@ def _l1_oracle(ctx, algo, prob, before, spec, soln, h, cache, brute, separable):
             cache[key][3] = loc if loc is not None else False
         require(not loc, P + "not-local-optimum",
                 lambda: f"returned {list(key)} (cv,score)={loc[2]} but exchanging position {loc[0]} for member {loc[1]} gives {loc[3]}")
-    # bookkeeping
-    if algo == HILL and h.last is not None and sorted(h.last) != sorted(key):
-        ctx.flag("L1:climber-moved")
-        ctx.count("L1:climber-moved")
     pk = cache.get("pk")
     if pk is None:
         pk = cache["pk"] = _dg(spec)
@@ -304,18 +301,30 @@ def _l1_oracle(ctx, algo, prob, before, spec, soln, h, cache, brute, separable):
     s = spec["obj"][0]["s"]
     if k < n and len(set(s)) > 1:
         ctx.nontriv(_dg(algo, pk, key, "nt"))
-    if g.sum() + e.sum() > 0:
-        ctx.flag("L1:returned-infeasible")
+
+
+def _l1_coverage(ctx, algo, spec, soln, h, separable):
+    """vacuity bookkeeping; deliberately independent of the oracle's verdict"""
+    s = spec["obj"][0]["s"]
     if len(set(s)) < len(s):
         ctx.flag("L1:ties")
     if len(set(s)) == 1:
         ctx.flag("L1:constant-objective")
-    if k == n:
+    if spec["k"] == len(spec["cand"]):
         ctx.flag("L1:k==n")
     if not separable:
         ctx.flag("L1:non-separable")
     if spec.get("ineq") or spec.get("eq"):
         ctx.flag("L1:constrained")
+    try:
+        x = [int(v) for v in soln.soln_decn[0]]
+        if float(numpy.sum(soln.soln_ineqcv) + numpy.sum(soln.soln_eqcv)) > 0:
+            ctx.flag("L1:returned-infeasible")
+        if algo == HILL and h.last is not None and sorted(h.last) != sorted(x):
+            ctx.flag("L1:climber-moved")
+            ctx.count("L1:climber-moved")
+    except Exception:
+        pass
 
 
 # ----------------------------------------------------------------------------
@@ -437,19 +446,21 @@ def l2_run(ctx, op, spec, parents, par, answers=None):
         ok = ctx.guard(oracle, case=case, sig_prefix=PX)
         if ok:
             ctx.traces += 1
+        elif R.snap_diff(before, R.snapshot(prob)) is not None:
+            prob = R.build(spec)
+        try:        # coverage bookkeeping, independent of the verdict
             flat = [numpy.asarray(r).tolist() for r in (out if not isinstance(out, numpy.ndarray) else out.reshape(-1, k))]
             ctx.outcome(_dg(op, flat))
             ctx.state(_dg(op, spec["cand"] if subset else spec["lo"], k, parents))
-            changed = op == SAMP or flat != numpy.asarray(parents).reshape(-1, k).tolist()
-            if changed:
+            if op == SAMP or flat != numpy.asarray(parents).reshape(-1, k).tolist():
                 ctx.nontriv(_dg(op, spec, parents, par.get("phc"), par.get("nhcstep"), list(ch.taken)))
                 ctx.count(f"L2:changed:{op}")
             else:
                 ctx.count(f"L2:identity:{op}")
-            if ncalls:
-                ctx.flag(f"L2:drew:{op}")
-        elif R.snap_diff(before, R.snapshot(prob)) is not None:
-            prob = R.build(spec)
+        except Exception:
+            pass
+        if ncalls:
+            ctx.flag(f"L2:drew:{op}")
         if degenerate:
             ctx.flag(f"L2:k==n:{op}")
         if ctx.evaluations % 7919 == 1 and out is not None:
@@ -747,6 +758,8 @@ def l3_run(ctx, cname, tag, spec, ps, ng, pin):
         if soln.nsoln > 1:
             ctx.nontriv(_dg(cname, tag, ps, ng, pin))
             ctx.flag(f"L3:front>1:{cname}")
+        if spec.get("ineq") or spec.get("eq"):
+            ctx.flag(f"L3:constrained-returned:{kind}")
         if ctx.evaluations % 97 == 1:
             ctx.sample(dict(layer="L3", cls=cname, problem=tag, pop_size=ps, ngen=ng, pin=pin,
                             decisions=soln.soln_decn, obj=soln.soln_obj, ineqcv=soln.soln_ineqcv))
@@ -791,8 +804,6 @@ def _l3_oracle(ctx, P, cname, kind, multi, prob, before, spec, soln):
         require(dom is None, P + "dominated-member",
                 lambda: f"solution {dom[1]} {X[dom[1]].tolist()} F={F[dom[1]]} cv={CV[dom[1]]} is dominated by solution {dom[0]} "
                         f"{X[dom[0]].tolist()} F={F[dom[0]]} cv={CV[dom[0]]}")
-    if spec.get("ineq") or spec.get("eq"):
-        ctx.flag(f"L3:constrained-ok:{kind}")
 
 
 def _l3_shards(tier, seed):
@@ -868,7 +879,7 @@ def finalize(ctx, tier, seed):
         if multi:
             assert f"L3:front>1:{cname}" in ctx.flags, cname       # non-domination is not vacuous
     for kind in ("subset", "real", "integer", "binary"):
-        assert f"L3:constrained-ok:{kind}" in ctx.flags, kind
+        assert f"L3:constrained-returned:{kind}" in ctx.flags, kind
     assert len(ctx.outcomes) > 1000, len(ctx.outcomes)
     ctx.count("L1:executions", sum(v for k, v in c.items() if k.startswith("L1:exec:")))
     ctx.count("L2:transitions", sum(v for k, v in c.items() if k.startswith("L2:trans:")))
